@@ -4,10 +4,15 @@ use crate::report::{Report, Tier};
 pub mod common;
 pub mod c01;
 pub mod c02;
+pub mod c04;
 pub mod c06;
 pub mod c07;
 pub mod c08;
+pub mod c13;
+pub mod c14;
+pub mod c15;
 pub mod c16;
+pub mod c17;
 pub mod c11;
 pub mod c12;
 
@@ -32,10 +37,15 @@ macro_rules! props {
 props! {
     "C01" => c01,
     "C02" => c02,
+    "C04" => c04,
     "C06" => c06,
     "C07" => c07,
     "C08" => c08,
+    "C13" => c13,
+    "C14" => c14,
+    "C15" => c15,
     "C16" => c16,
+    "C17" => c17,
     "C11" => c11,
     "C12" => c12,
 }
